@@ -75,6 +75,10 @@ PRIMS = {
     "uatomic_or": ("uor", 2, False, 1), "uatomic_and": ("uand", 2, False, 1),
     "uatomic_inc": ("uinc", 1, False, 1), "uatomic_dec": ("udec", 1, False, 1),
     "uatomic_add_return": ("uaddret", 2, True, 1), "uatomic_sub_return": ("usubret", 2, True, 1),
+    "uatomic_add_mo": ("uadd", 2, False, 1), "uatomic_sub_mo": ("usub", 2, False, 1),
+    "uatomic_or_mo": ("uor", 2, False, 1), "uatomic_and_mo": ("uand", 2, False, 1),
+    "uatomic_inc_mo": ("uinc", 1, False, 1), "uatomic_dec_mo": ("udec", 1, False, 1),
+    "uatomic_add_return_mo": ("uaddret", 2, True, 1), "uatomic_sub_return_mo": ("usubret", 2, True, 1),
     "cmm_smp_mb": ("mb", 0, False, 0), "cmm_smp_rmb": ("rmb", 0, False, 0), "cmm_smp_wmb": ("wmb", 0, False, 0),
     "cmm_barrier": ("barrier", 0, False, 0), "caa_cpu_relax": ("relax", 0, False, 0),
 }
@@ -96,7 +100,7 @@ def api_defaults():
 IGNORED_CALLS = {"cmm_annotate_mem_acquire", "cmm_annotate_mem_release", "cmm_annotate_group_mem_acquire",
                  "cmm_annotate_group_mem_release", "cmm_annotate_group_mb_acquire", "cmm_annotate_group_mb_release",
                  "cmm_smp_read_barrier_depends",
-                 "cmm_annotate_define", "urcu_posix_assert"}
+                 "cmm_annotate_define"}
 # value-preserving wrappers: branch hints, and the by-value transparent-union casts of wfcqueue.h (`{ ._h = head }`)
 IDENTITY_CALLS = {"caa_likely", "caa_unlikely", "__cds_wfcq_head_cast", "cds_wfcq_head_cast",
                   "__cds_wfcq_head_const_cast", "cds_wfcq_head_const_cast"}
@@ -552,12 +556,28 @@ def strip_conditionals(text, defines, consts=None):
 # callees deliberately kept opaque (list traversals …): their result comes from the oracle, event `ext name`
 OPAQUE = {"rcu_defer_num_callbacks", "mutex_lock", "mutex_unlock", "mutex_lock_defer", "get_call_rcu_data", "membarrier"}
 # public names that, under _LGPL_SOURCE (how src/*.c is compiled), are macros for the static-inline implementation
-ALIASES = {"cds_wfcq_enqueue": "_cds_wfcq_enqueue", "cds_wfcq_node_init": "_cds_wfcq_node_init",
-           "cds_wfcq_empty": "_cds_wfcq_empty", "rcu_read_lock": "_rcu_read_lock", "rcu_read_unlock": "_rcu_read_unlock"}
+ALIASES_STATIC = {"rcu_read_lock": "_rcu_read_lock", "rcu_read_unlock": "_rcu_read_unlock"}
+ALIASES = dict(ALIASES_STATIC)
+
+
+def lgpl_aliases():
+    """`#define public_name _static_name` lines of the public headers (their _LGPL_SOURCE branch, which is how src/*.c and
+    the harnesses are compiled), read from the header text"""
+    out = {}
+    for h in ["wfstack.h", "wfcqueue.h", "lfstack.h", "rculfqueue.h", "rculfstack.h", "wfqueue.h"]:
+        try:
+            txt = strip_comments(open(os.path.join(REPO, "include", "urcu", h)).read())
+        except OSError:
+            continue
+        for m in re.finditer(r"^[ \t]*#[ \t]*define[ \t]+(\w+)[ \t]+(_\w+)[ \t]*$", txt, re.M):
+            out[m.group(1)] = m.group(2)
+    return out
 
 
 class Translator:
     def __init__(self, defines=(), own_files=(), prefix="", search=None, consts=None):
+        global ALIASES
+        ALIASES = dict(lgpl_aliases(), **ALIASES_STATIC)
         self.texts = {}
         self.pp_unknown = []
         self.defines, self.own_files, self.prefix = set(defines), set(own_files), prefix
@@ -746,7 +766,8 @@ class Translator:
             return p, ".un .%s (%s)" % (op, a)
         if k == "bin":
             ops = {"+": "add", "-": "sub", "&": "band", "|": "bor", "^": "bxor", "<<": "shl", ">>": "shr", "==": "eq",
-                   "!=": "ne", "<": "lt", "<=": "le", ">": "gt", ">=": "ge", "&&": "land", "||": "lor"}
+                   "!=": "ne", "<": "lt", "<=": "le", ">": "gt", ">=": "ge", "&&": "land", "||": "lor",
+                   "*": "mul", "/": "div", "%": "mod"}
             if e[1] not in ops:
                 raise Unsupported("operator %s" % e[1])
             p1, a = self.rv(e[2])
@@ -811,6 +832,15 @@ class Translator:
             if want_value:
                 raise Unsupported("value of %s" % name)
             return [".prim none .barrier []"], None
+        if name == "urcu_posix_assert":
+            # assert() of <assert.h>, compiled in (no NDEBUG): its argument is evaluated.  Without shared accesses in it that
+            # is invisible (nothing emitted); with them the accesses happen and a false condition aborts.
+            if want_value:
+                raise Unsupported("value of %s" % name)
+            p, v = self.rv(args[0])
+            if not p:
+                return [], None
+            return p + [".ifte (%s) (.skip) (.prim none (.ext \"abort\") [])" % v], None
         if name in ASSERT_CALLS:
             p, v = self.rv(args[0])
             if p:
